@@ -31,6 +31,7 @@ int qp_parse(const char *text, qprog *p)
 		if (!strncmp(s, "gate;", 5)) { p->gate = 1; s += 5; continue; }
 		if (!strncmp(s, "cold;", 5)) { p->cold = 1; s += 5; continue; }
 		if (!strncmp(s, "slow;", 5)) { p->slow = 1; s += 5; continue; }
+		if (!strncmp(s, "hold;", 5)) { p->hold = 1; s += 5; continue; }
 		break;
 	}
 	// queues
@@ -61,11 +62,40 @@ int qp_parse(const char *text, qprog *p)
 			if (p->gate && op_is_sync(o->op)) return -1;
 		}
 	}
+	if (p->hold) {
+		// only one thread may issue synchronous ops (their bodies wait for the OTHER threads' submissions), and those other
+		// threads must never wait themselves
+		int syncers = 0;
+		for (int t = 0; t < p->nthr; t++) {
+			int has = 0;
+			for (int k = 0; k < p->nops[t]; k++) if (op_is_sync(p->ops[t][k].op)) has = 1;
+			syncers += has;
+		}
+		if (syncers > 1) return -1;
+	}
 	return p->nthr ? 0 : -1;
 }
 
+static int g_subs_done[QP_MAXT];
+static int others_submitted(void *tp)
+{
+	int t = (int)(intptr_t)tp;
+	for (int u = 0; u < g_p->nthr; u++) if (u != t && !g_subs_done[u]) return 0;
+	return 1;
+}
 static void body(int id)
 {
+	int t = (id % 1000 - 1) / 16, k = (id % 1000 - 1) % 16;
+	if (g_p->hold && id < 1000 && t < g_p->nthr && k < g_p->nops[t] && op_is_sync(g_p->ops[t][k].op) && g_p->ops[t][k].op != 'A' && g_p->ops[t][k].op != '3') {
+		// the synchronously executed item stays in flight until every other client thread has returned from all of its
+		// submissions: the overlap "reader inside, barrier arriving" costs no preemption
+		vx_ev(EV_START, id, 0);
+		vx_wait_until(others_submitted, (void *)(intptr_t)t);
+		vx_point();
+		vx_ev(EV_END, id, 0);
+		g_ended[id] = 1; g_items_ended++;
+		return;
+	}
 	if (g_p->gate && !g_gate_open) {
 		int *a[2] = { &g_gate_open, (int *)(intptr_t)1 };
 		vx_wait_until(pred_int_ge, a);
@@ -135,6 +165,7 @@ static void do_ops(int t)
 static void client(void *arg)
 {
 	do_ops((int)(intptr_t)arg);
+	g_subs_done[(int)(intptr_t)arg] = 1;
 	g_threads_done++;
 }
 
@@ -150,7 +181,7 @@ void qp_run(const qprog *p)
 {
 	g_p = p;
 	g_items_expected = g_items_ended = g_gate_open = g_threads_done = 0;
-	memset(g_ended, 0, sizeof g_ended);
+	memset(g_ended, 0, sizeof g_ended); memset(g_subs_done, 0, sizeof g_subs_done);
 	vx_set_horizon(12ull * 1000000000ull);
 	for (int t = 0; t < p->nthr; t++) for (int k = 0; k < p->nops[t]; k++) {
 		char o = p->ops[t][k].op;
@@ -213,7 +244,7 @@ void qp_run_main(const qprog *p)
 {
 	g_p = p;
 	g_items_expected = g_items_ended = g_gate_open = g_threads_done = 0;
-	memset(g_ended, 0, sizeof g_ended);
+	memset(g_ended, 0, sizeof g_ended); memset(g_subs_done, 0, sizeof g_subs_done);
 	vx_set_horizon(12ull * 1000000000ull);
 	for (int t = 0; t < p->nthr; t++) for (int k = 0; k < p->nops[t]; k++) {
 		char o = p->ops[t][k].op;
